@@ -108,4 +108,13 @@ theorem sliceSites_tie : Gen.Smtp.sliceSites =
 /-- the statements of StoreManager.Deliver the model mirrors are all present -/
 theorem deliverShape_tie : Gen.Smtp.deliverShape.length = 8 := by decide
 
+/-- the accepting exit of the STARTTLS clause (after its "220"): tls.Server on the session's connection, the connection
+    field replaced, a NEW textproto.Conn on the wrapped connection assigned to the field lines are read from — what the old
+    reader had buffered is gone (`Model.Smtp.runWire`) —, the *tls.ConnectionState field assigned; no explicit handshake
+    (it runs inside the next read or write) -/
+theorem starttls_switch_tie : Gen.Smtp.starttlsSwitch = ["wrap", "conn", "reader", "state"] := by decide
+
+/-- the TLS state is a field of the session: `Model.Smtp.Sess.tls` -/
+theorem tls_scope_tie : Gen.Smtp.tlsStateScope = "perSession" := by decide
+
 end Ibx.Tie.Smtp
